@@ -227,6 +227,10 @@ def fbits(x):
     """(sign, mantissa, exponent) exactly as Lib.PyFloat.fbits prints it."""
     import math
     x = float(x)
+    if x != x:
+        return [0, -2, 0]
+    if x in (float("inf"), float("-inf")):
+        return [1 if x < 0 else 0, -1, 0]
     if x == 0:
         return [1 if math.copysign(1.0, x) < 0 else 0, 0, 0]
     m, e = math.frexp(abs(x))
